@@ -337,9 +337,7 @@ Proof.
   destruct (negb (j =? i)); cbn [andb]; [apply andb_comm|reflexivity].
 Qed.
 
-(** the only argument order in which a law can fail: Int, Float, Int *)
-Definition k_mid (x y z : ovalue) : bool :=
-  match x, y, z with OInt i, OFloat f, OInt j => collide i j f | _, _, _ => false end.
+(** [k_mid] (Value/Laws.v): the only argument order in which a law can fail: Int, Float, Int *)
 
 Lemma k_trans_mid x y z : k_trans x y z = false -> k_mid x y z = false.
 Proof. destruct x, y, z; cbn [k_trans k_mid]; auto. Qed.
